@@ -77,12 +77,18 @@ def reference(n, info, span_key, span_bases):
             same_kind_collision.append(key)
             cands.append([key, kind, frozenset(members)])
             return
-        extras = set(members) - set().union(*[e[2] for e in entries])
+        # a weaker group is built up from whole candidates: only those it contains are what it can be promoted into, a
+        # candidate that merely has the same coordinates is another candidate (equal coordinates, different membership)
+        targets = [e for e in entries if e[2] <= frozenset(members)]
+        if not targets:
+            cands.append([key, kind, frozenset(members)])
+            return
+        extras = set(members) - set().union(*[e[2] for e in targets])
         if not extras:
             return
-        if len(entries) > 1:
-            ambiguous = True      # which of the candidates at these coordinates the weaker group is promoted into is not documented
-        entries[0][2] = entries[0][2] | extras
+        if len(targets) > 1:
+            ambiguous = True      # which of the candidates it joins the weaker group is promoted into is not documented
+        targets[0][2] = targets[0][2] | extras
         singles_extra.update(extras)
 
     protos = list(range(n))
@@ -347,7 +353,8 @@ def clipped_hybrids_plus_one(nslots, circ):
     record (the norm on small contigs and plasmids), plus one further protocluster, clipped or not - groups of one kind then
     arrive at identical coordinates"""
     L = nslots * P.SLOT
-    extra = [m for m in P.protocluster_menu(nslots, circ, max_core=1, neighbourhoods=((0, 0), (CLIP, CLIP)))
+    # (cores of two slots: a further protocluster can then overlap the core span of a pair without lying inside it)
+    extra = [m for m in P.protocluster_menu(nslots, circ, max_core=2, neighbourhoods=((0, 0), (CLIP, CLIP)))
              if P.make_protocluster(L, circ, m) is not None]
     evens = [s for s in range(0, nslots - 1, 2)]
     for s1, s2 in itertools.combinations(evens, 2):
